@@ -19,11 +19,17 @@ func createDynForEMAThroughputSampler(c *config.EMAThroughputSamplerConfig) *dyn
 		maxKeys = 500
 	}
 	clusterSize := 1 // Will be updated by SetClusterSize if needed
+	adjustmentInterval := time.Duration(c.AdjustmentInterval)
+	if adjustmentInterval < time.Millisecond {
+		// dynsampler's Start refuses intervals under 1ms (and would leave the sampler
+		// uninitialised); negative ones make time.NewTicker panic. 0 = dynsampler's default
+		adjustmentInterval = 0
+	}
 
 	dynsamplerInstance := &dynsampler.EMAThroughput{
 		GoalThroughputPerSec: c.GoalThroughputPerSec / clusterSize,
 		InitialSampleRate:    c.InitialSampleRate,
-		AdjustmentInterval:   time.Duration(c.AdjustmentInterval),
+		AdjustmentInterval:   adjustmentInterval,
 		Weight:               c.Weight,
 		AgeOutValue:          c.AgeOutValue,
 		BurstDetectionDelay:  c.BurstDetectionDelay,
